@@ -290,7 +290,7 @@ func (r *Report) Finish(tier string, seed int, level string, known []Finding, ev
 // importRules runs another property's rules on a scratch report and adopts the obligations (and floors) of the
 // named rules under this property's own rule id. Used where two properties share a necessary condition: the
 // construct is analysed once, each property's evidence names it under its own rule.
-func importRules(c *Ctx, r *Report, from string, rules []string, as string) {
+func importRules(c *Ctx, r *Report, from string, rules []string, as string, minAdopted ...int) {
 	var spec *PropSpec
 	if len(c.importing) > 0 {
 		return // a property that is itself being run for adoption does not adopt in turn
@@ -345,5 +345,11 @@ func importRules(c *Ctx, r *Report, from string, rules []string, as string) {
 			r.Floors = append(r.Floors, f)
 		}
 	}
-	r.Floor(as, "obligations adopted from "+from+" "+fmt.Sprint(rules), n, 1)
+	min := 1
+	if len(minAdopted) > 0 {
+		min = minAdopted[0]
+	}
+	if min > 0 {
+		r.Floor(as, "obligations adopted from "+from+" "+fmt.Sprint(rules), n, min)
+	}
 }
